@@ -42,6 +42,9 @@ Allowed rewrites (each is logged per function and reported in the evidence):
       character of the literal or another argument cannot be tokenised this way => out of reach (exit 2).
   R15 `x.replace(&a, &b)` on a String -> verif_io::str_replace(&x, &a, &b): the resulting text is an uninterpreted function of the
       three texts (std's str::replace has no Verus specification); nothing is claimed about the text itself
+  R16 (only with `//@charindices`) `for (i, c) in <p>.char_indices() {` -> `for verif_k in 0..verif_ci::char_count(<p>) { let (i, c) =
+      verif_ci::char_at(<p>, verif_k);` and `input.len()` -> `verif_ci::byte_len(input)`: helpers with the ASSUMED std contract of
+      char_indices (k-th item = byte offset and value of the k-th character; offsets strictly increasing, inside the text)
   R10 a local variable named `int` (a Verus builtin type name) is renamed `int_no`
   R9 print arguments: a slice of the source text `&x[a..b]` is logged as an opaque value (its rendering, and the slicing
      itself, are NOT checked); an identifier named by `//@str <ident>` is a String and is logged as verif_io::str_id(&ident)
@@ -436,6 +439,17 @@ class Extractor:
             self.rewrites.append(f"{what}: R13 `for ({m.group(1)}, {m.group(2)}) in {m.group(3)}.iter().enumerate()` -> index loop over 0..{m.group(3)}.len() with `let {m.group(2)} = &{m.group(3)}[{m.group(1)}]`")
             return f"for {m.group(1)} in 0..{m.group(3)}.len() {{ let {m.group(2)} = &{m.group(3)}[{m.group(1)}];"
         body = re.sub(r"\bfor\s+\(\s*(\w+)\s*,\s*(\w+)\s*\)\s+in\s+([\w.]+)\.iter\(\)\.enumerate\(\)\s*\{", enum_loop, body)
+        # R16 (only where the template says `//@charindices`): `for (i, c) in <p>.char_indices() {` -> an index loop over the characters
+        # of <p> through two helpers whose ASSUMED contracts are std's documented meaning of char_indices (k-th item = byte offset and
+        # value of the k-th character; offsets strictly increasing and inside the text); `<p>.len()` -> the byte length helper
+        if opts.get("charindices"):
+            def ci(m):
+                self.rewrites.append(f"{what}: R16 `for ({m.group(1)}, {m.group(2)}) in {m.group(3)}.char_indices()` -> index loop over the characters (assumed std contract)")
+                return (f"for verif_k in 0..verif_ci::char_count({m.group(3)}) {{ let ({m.group(1)}, {m.group(2)}) = verif_ci::char_at({m.group(3)}, verif_k);")
+            body = re.sub(r"\bfor\s+\(\s*(\w+)\s*,\s*(\w+)\s*\)\s+in\s+(\w+)\.char_indices\(\)\s*\{", ci, body)
+            for prm in opts.get("_ptypes", {}):
+                pass
+            body = re.sub(r"\b(input)\.len\(\)", r"verif_ci::byte_len(\1)", body)
         # R6: name the ghost iterator of `for _ in <range>` so that a spliced invariant can refer to the trip count
         b3 = re.sub(r"\bfor\s+(_|\w+|\([\w\s,]+\))\s+in\s+(?!verif_it:)", r"for \1 in verif_it: ", body)
         if b3 != body:
@@ -607,7 +621,7 @@ def expand(template: str, ex: Extractor) -> str:
         if kind in ("fn", "action"):
             # collect contract block
             contract, loops = [], {}
-            opts = {"ghost": [], "after": [], "before": [], "str": [], "strslice": False, "dropunused": False, "fmttoks": False, "fmtvar": []}
+            opts = {"ghost": [], "after": [], "before": [], "str": [], "strslice": False, "dropunused": False, "fmttoks": False, "fmtvar": [], "charindices": False}
             j = i + 1
             if j < len(lines) and lines[j].strip().startswith("//@contract"):
                 j += 1
@@ -620,6 +634,8 @@ def expand(template: str, ex: Extractor) -> str:
                         opts["strslice"] = True
                     elif s == "//@dropunused":
                         opts["dropunused"] = True
+                    elif s == "//@charindices":
+                        opts["charindices"] = True
                     elif s == "//@fmttoks":
                         opts["fmttoks"] = True
                     elif s.startswith("//@result "):
